@@ -8,5 +8,7 @@ from . import conn, families, mc, leasemodel
 
 def run(v):
     leasemodel.check(v)
+    # LeaseAnnounce.tla: the responder side (publication order and values on the wire, under back-pressure), replayed on a real server
+    leasemodel.check_announce(v)
     mc.run_for(v, 'C14')
     conn.check(v, 'C14', families.FAMILIES['C14'])
